@@ -1,18 +1,23 @@
-"""Prints the markdown table of seeded changes (seeded/*/meta.json + result.json) for DESIGN.md §A.4."""
+"""Prints the markdown table of seeded changes (seeded/*/meta.json + result.json + summary.json) for DESIGN.md §A.4."""
 import json
 import pathlib
 
 root = pathlib.Path(__file__).resolve().parent.parent / "seeded"
-print("| seeded change | property | what it needs to manifest | caught by (quick tier) | own check |")
+summ = json.loads((root / "summary.json").read_text()) if (root / "summary.json").exists() else {}
+cross = summ.get("cross_detection", {})
+missed = summ.get("missed_in_first_round", {})
+print("| change | site | needs to manifest | caught by (all quick checks) | first round |")
 print("|---|---|---|---|---|")
 for d in sorted(root.iterdir()):
     if not (d / "meta.json").exists():
         continue
     m = json.loads((d / "meta.json").read_text())
-    r = json.loads((d / "result.json").read_text()) if (d / "result.json").exists() else {}
     needs = (m.get("needs_to_manifest") or "").replace("|", "/").replace("\n", " ")
-    if len(needs) > 150:
-        needs = needs[:147] + "..."
-    caught = r.get("caught_by") or []
-    own = "yes" if m.get("property") in caught else "NO"
-    print(f"| `{d.name}` | {m.get('property')} | {needs} | {', '.join(caught) or '—'} | {own} |")
+    if len(needs) > 140:
+        needs = needs[:137] + "..."
+    site = (m.get("summary") or "").replace("|", "/").replace("\n", " ")
+    if len(site) > 90:
+        site = site[:87] + "..."
+    caught = cross.get(d.name, {}).get("caught_by_all_checks") or json.loads((d / "result.json").read_text()).get("caught_by", [])
+    fr = "missed: " + missed[d.name] if d.name in missed else "caught"
+    print(f"| `{d.name}` | {site} | {needs} | {', '.join(caught)} | {fr} |")
